@@ -37,11 +37,13 @@ type Ctx struct {
 	cgVTA *callgraph.Graph
 	useVT bool
 
-	funcs   map[string]*ssa.Function // RelString name -> function (ggql package + ggqlgen)
-	allFns  []*ssa.Function          // source functions of pkg/ggql incl. closures
-	declOf  map[*types.Func]*ast.FuncDecl
-	fileOf  map[*ast.FuncDecl]*ast.File
-	loadEnv []string
+	funcs map[string]*ssa.Function // RelString name -> function (ggql package + ggqlgen)
+	// set by C10.DIRREQ while it runs the defaults rule of C16 on this program
+	dirUseCompletionHook func(fn *ssa.Function, mu *ssa.MapUpdate, ord int, condOnDefault bool)
+	allFns               []*ssa.Function // source functions of pkg/ggql incl. closures
+	declOf               map[*types.Func]*ast.FuncDecl
+	fileOf               map[*ast.FuncDecl]*ast.File
+	loadEnv              []string
 
 	passThroughMemo map[*ssa.Function][]int
 	starErrMemo     map[*ssa.Function]int
